@@ -25,9 +25,9 @@ ASSERT_ARGUMENTS = {
     ("CParser._parse_direct_abstract_declarator", "$(c_ast.FuncDecl(args=$, type=c_ast.TypeDecl(declname=None, quals=None, align=None, type=None), coord=self._tok_coord(tok=$)) | self._parse_abstract_array_base() | self._parse_abstract_declarator_opt()) is not None"):
         "_parse_abstract_declarator_opt returns None only when the next token is none of * ( [; the branch is entered with a token that is not ')' "
         "either, so the following _expect('RPAREN') has already raised ParseError before the assert is reached",
-    ("CLexer._match_token", "$($.lastgroup | 'TYPEID' | _keyword_map.get($, 'ID') | item1 of $) is not None"):
+    ("CLexer._match_token", "$($.lastgroup | $[1] | 'TYPEID' | _keyword_map.get($, 'ID')) is not None"):
         "every alternative of the master regex is a named group (checked automatically when the tokeniser model is built)",
-    ("CLexer._match_token", "$(f'Invalid char constant {$}' | item1 of _regex_actions[$] | item4 of $) is not None"):
+    ("CLexer._match_token", "$($[4] | _regex_actions[$][1] | f'Invalid char constant {$}') is not None"):
         "every ERROR rule carries a message except BAD_CHAR_CONST, for which the line above builds one (rule table checked by R-C10.2)",
     ("_fix_atomic_specifiers_once", "isinstance($($ | @0), c_ast.TypeDecl)"):
         "a Typename carrying _Atomic is produced only by _parse_atomic_specifier and reaches a declaration only as a type specifier, which "
@@ -61,13 +61,13 @@ PARTIAL_ARGUMENTS = {
     ("CParser._build_declarations", "@2[0]"): "callers pass a literal one-element list or the non-empty result of a declarator-list production",
     ("CParser._build_declarations", "@1['type'][-1]"): "guarded by len(spec['type']) < 2 in the same or-chain / reached only after that guard raised otherwise",
     ("CParser._build_function_definition", "self._build_declarations(spec=@1, decls=[dict(decl=@2, init=None, bitsize=None)], typedef_namespace=True)[0]"): "one declaration is built per element of the one-element decls list",
-    ("CParser._parse_parameter_declaration", "self._build_declarations(spec=$(item0 of self._parse_declaration_specifiers(allow_no_type=True)), decls=[dict(decl=$(item0 of self._parse_any_declarator(allow_abstract=True, typeid_paren_as_abstract=True) | self._parse_abstract_declarator_opt()), init=None, bitsize=None)])[0]"): "one declaration per element of the one-element decls list",
+    ("CParser._parse_parameter_declaration", "self._build_declarations(spec=$(self._parse_declaration_specifiers(allow_no_type=True)[0]), decls=[dict(decl=$(self._parse_abstract_declarator_opt() | self._parse_any_declarator(allow_abstract=True, typeid_paren_as_abstract=True)[0]), init=None, bitsize=None)])[0]"): "one declaration per element of the one-element decls list",
     ("CParser._build_parameter_declaration", "self._build_declarations(spec=@1, decls=[dict(decl=@2, init=None, bitsize=None)])[0]"): "one declaration per element of the one-element decls list",
     ("CParser._build_parameter_declaration", "@1['type'][-1]"): "guarded by len(spec['type']) > 1 earlier in the same and-chain",
     ("CParser._fix_decl_name_type", "@2[0]"): "else-branch of `if not typename`",
     ("CParser._parse_decl_body_with_spec", "@1['type'][0]"): "guarded by len(ty) == 1 in the same and-chain / if",
-    ("CParser._parse_pragmacomp_or_statement", "$(self._parse_pppragma_directive_list())[0]"): "_parse_pppragma_directive_list is entered under look-ahead PPPRAGMA/_PRAGMA and its loop runs at least once",
-    ("CParser._parse_initializer_list", "$([self._parse_initializer_item()])[0]"): "items is built as a one-element list display",
+    ("CParser._parse_pragmacomp_or_statement", "$(self._parse_pppragma_directive_list()[0])"): "_parse_pppragma_directive_list is entered under look-ahead PPPRAGMA/_PRAGMA and its loop runs at least once",
+    ("CParser._parse_initializer_list", "$([self._parse_initializer_item()][0])"): "items is built as a one-element list display",
     ("CParser._parse_initializer_item", "$(None | self._parse_designation())[0]"): "inside `if designation is not None`; _parse_designation is entered under look-ahead LBRACKET/PERIOD and the loop of _parse_designator_list therefore runs at least once",
     ("CParser._parse_constant", "$(self._advance()).value[-1]"): "no token language contains the empty string (R-C09.5)",
     ("_extract_nested_case", "@0.stmts[0]"): "Case/Default nodes are built by _parse_labeled_statement with a one-element statement list and only grow",
@@ -77,7 +77,7 @@ PARTIAL_ARGUMENTS = {
     ("CLexer.token", "self._lexdata[self._pos]"): "inside `while self._pos < n`",
     ("CLexer._match_token", "self._lexdata[self._pos]"): "called from token() only while _pos < len(text)",
     ("CLexer._match_token", "$(($, $, $, $, $) | ($, $.tok_type, $.literal, _RegexAction.TOKEN, None) | None)[0]"): "right operand of `best is None or ...`",
-    ("CLexer._match_token", "_regex_actions[$($.lastgroup | 'TYPEID' | _keyword_map.get($, 'ID') | item1 of $)]"): "tok_type is the name of a master-regex group and the table is built from the same rule list (checked when the model is built)",
+    ("CLexer._match_token", "_regex_actions[$($.lastgroup | $[1] | 'TYPEID' | _keyword_map.get($, 'ID'))]"): "tok_type is the name of a master-regex group and the table is built from the same rule list (checked when the model is built)",
 }
 PARTIAL_ARGUMENTS.update({
     ("CParser._add_typedef_name", "self._scope_stack[-1]"): "the scope stack is never empty: parse() starts it with one scope, _push_scope appends, _pop_scope refuses to pop the last one",
@@ -109,6 +109,11 @@ def reachable_functions():
     for n, f in tx.functions.items():
         out.append((tx, n, f))
     return out
+
+
+import re as _re_c
+_ITEM_TAG = _re_c.compile(r"item(\d+) of ")
+_SUBSCRIPT_OUT = _re_c.compile(r"\$\(([^$|()]*(?:\([^$|()]*\))?[^$|()]*)\)((?:\[-?\d+\])+)")
 
 
 class Canon:
@@ -167,6 +172,11 @@ class Canon:
         if key not in self._memo:
             parts = set()
             for tag, v in self.defs[name]:
+                mt = _ITEM_TAG.fullmatch(tag)
+                if mt and v is not None:
+                    # `a, b = f()` binds a to f()[0]: rendered like the subscript, so unpacking a tuple and indexing it read the same
+                    parts.add(self.text(v, depth + 1, stack + (name,)) + f"[{mt.group(1)}]")
+                    continue
                 parts.add(tag + (self.text(v, depth + 1, stack + (name,)) if v is not None else ""))
             self._memo[key] = "$(" + " | ".join(sorted(parts)) + ")"
         return self._memo[key]
@@ -200,7 +210,8 @@ class Canon:
             repl = [(f"@{self.param_index[old]}" if old in self.param_index and old not in self.defs else "_" if isinstance(n.ctx, ast.Store) else self.prov(old, depth, stack)) for n, old in saved]
             for (n, _old), new in zip(saved, repl):
                 n.id = new
-            return norm(ast.unparse(node))
+            # `$(f())[0]` (a local naming the whole result, then indexed) reads like `$(f()[0])` (the element bound by unpacking)
+            return _SUBSCRIPT_OUT.sub(lambda m_: "$(" + m_.group(1) + m_.group(2) + ")", norm(ast.unparse(node)))
         finally:
             for n, old in saved:
                 n.id = old
@@ -774,6 +785,10 @@ def _min_tuple_len(cls, mname, stack, allow_none=False):
         if not others or not isinstance(m0.body[-1], (ast.Return, ast.Raise)):
             return None
         if not all(isinstance(r.value, ast.Tuple) and not any(isinstance(y, ast.Starred) for y in r.value.elts) for r in others):
+            # not all displays: the returns may hand on the result of another such method (`info = self._scan(); return info`)
+            if not nones:
+                ln0 = _min_tuple_len(cls, mname, stack)
+                return None if ln0 is None else (ln0, False)
             return None
         return min(len(r.value.elts) for r in others), bool(nones)
     if mname in stack:
